@@ -436,14 +436,27 @@ func BuildFrom(query *Query, tableExpr *sqlparser.TableExpr) error {
 
 func BuildJoin(query *Query, joinExpr *sqlparser.JoinTableExpr) error {
 	left := CopyQuery(query)
+	left.postProcessors = nil
 	err := BuildFrom(left, &joinExpr.LeftExpr)
 	if err != nil {
 		return err
 	}
 	right := CopyQuery(query)
+	right.postProcessors = nil
 	err = BuildFrom(right, &joinExpr.RightExpr)
 	if err != nil {
 		return err
+	}
+	// a derived table used as a join operand hands its pending ASYNC/SPINASYNC
+	// calls over to the joined query, which waits for them like for its own
+	for _, operand := range []*Query{left, right} {
+		operand := operand
+		query.postProcessors = append(query.postProcessors, operand.postProcessors...)
+		query.wg.Add(1)
+		go func() {
+			operand.wg.Wait()
+			query.wg.Done()
+		}()
 	}
 	if joinExpr.Condition.On == nil {
 		expr := new(sqlparser.AndExpr)
